@@ -11,6 +11,9 @@
                                document (400 / 409), then whatever the application answered
       3. identity and links    resource objects are the addressed resources; relationship objects
                                carry the standard self/related links of their own resource
+      4. rule predicates       [unknown_target], [undefined_operation], [conflict]
+      5. the parameter-name grammar, declaratively ([well_formed_parameter])
+      6. the equivalence modulo which model and implementation are compared ([wbody_equiv])
 
     Shared with the model: the data types, path splitting ([split_on]), the typed decoders of request
     documents (what "a decodable request document" means is jsoniter's business), [valid_status]. *)
@@ -554,7 +557,7 @@ Inductive conflict (sch : schema) (rq : request) : Prop :=
     decode_body (dec_resource_request true) (rq_body rq) = Some doc ->
     (pd_type doc <> r_type r \/ pd_id doc <> r_id r) -> conflict sch rq.
 
-(** what a request without errors is about: used to state identity in plain terms *)
+(** the status of an answer ([None]: the handler panicked) *)
 Definition answer_status (o : outcome) : option Z := match o with Resp st _ _ _ => Some st | Panic => None end.
 
 (** ** 5. The parameter-name grammar, declaratively (validated against [supported_parameter] in
